@@ -132,3 +132,32 @@ Proof. eexists. vm_compute. repeat split; reflexivity. Qed.
 Lemma orphans_rejected_now :
   snd (run_from (cfg2 true) init_state trace_orphans 0) = Some (135, R_GUARD).
 Proof. vm_compute. reflexivity. Qed.
+
+(* I5: the engine content found after a process death is never used: the death leaves it untrusted, the restart
+   value [recover] is a function of WAL, snap files and checkpoints only, and the only steps that make the engine
+   usable again are CleanData (no snapshot / fresh WAL) and the restore from the chosen snapshot's checkpoint *)
+Lemma engine_untrusted_after_crash : forall c s j extra s', step c s (EvCrash j extra) = Ok s' -> engine s' = None /\ rc s' = RcStart.
+Proof.
+  intros c s j extra s' H. unfold step in H. destruct (image s j extra); [|discriminate]. injection H as <-. split; reflexivity.
+Qed.
+
+Lemma engine_trusted_only_after_clean_or_restore : forall c s ev s' l,
+  engine s = None -> step c s ev = Ok s' -> engine s' = Some l ->
+  (ev = EvRcNone /\ l = []) \/ (ev = EvRcFresh /\ l = []) \/ (exists i, ev = EvRsCopied i /\ lookup i (ckpts s) = Some l).
+Proof.
+  intros c s ev s' l He H Hs'. destruct ev; unfold step in H; cbv zeta in H.
+  all: try (unfold sn_step in H).
+  all: repeat (match type of H with
+               | (match ?x with _ => _ end) = _ => destruct x eqn:?
+               | (if ?x then _ else _) = _ => destruct x eqn:?
+               end; try discriminate H).
+  all: try discriminate H.
+  all: try (injection H as <-; cbn in Hs'; try congruence).
+  all: try (left; split; [reflexivity | congruence]).
+  all: try (right; left; split; [reflexivity | congruence]).
+  all: try (right; right; eexists; split; [reflexivity|]; apply N.eqb_eq in Heqb || idtac; congruence).
+  - exfalso. destruct apd; destruct ((0 <? r_n r) || r_hs r && r_tv r); destruct (negb (opt_fsync c) || r_hs r && r_tv r);
+      cbn in Hs'; congruence.
+  - right. right. exists i. split; [reflexivity|].
+    match goal with G : negb (i =? ?j) = false |- _ => apply negb_false_iff in G; apply N.eqb_eq in G; subst end. congruence.
+Qed.
